@@ -182,6 +182,11 @@ class ModelProc:
     def query(self, ints):
         self.p.stdin.write(" ".join(str(int(i)) for i in ints) + "\n")
         self.p.stdin.flush()
+        import select
+        ready, _, _ = select.select([self.p.stdout], [], [], 300)
+        if not ready:
+            self.p.kill()
+            raise MachineryError(f"model driver {self.exe} did not answer within 300 s on input {ints[:40]}")
         line = self.p.stdout.readline()
         if not line:
             raise MachineryError(f"model driver {self.exe} died on input {ints[:40]}")
